@@ -520,3 +520,7 @@ def fast_decisions(ck, P, R="SIB/fast~fast_back"):
               "inflate_fast_back no longer makes the decision(s) %s of inflate's fast loop: inflateBack decodes a match or a code class "
               "differently from inflate for the same bits" % [(m[0], m[1], m[2], m[3]) for m in missing][:3], where(b))
     ck.floor(R, len(want), 8)
+
+# session 5 (round 10)
+EXPLANATION = EXPLANATION + " " + (
+    "SIB/fast~fast_back: every comparison of inflate's fast loop that is not about the window or the input left has a counterpart in inflate_fast_back.")
